@@ -722,3 +722,454 @@ func rootedAt(v ssa.Value, prm *ssa.Parameter, d int) bool {
 	}
 	return false
 }
+
+// ancestorChainAccumulates (round 8): ParseParentGitignores reads the .gitignore of every ancestor of
+// the requested directory, top down. The directory read in an iteration is all components so far
+// joined — the path handed to ParseDirForGitignore comes out of a variable the loop carries (a phi
+// at the loop head, fed by this iteration's component): a path built from the component alone (the
+// accumulator shadowed by `:=`) reads b/.gitignore at the scan root instead of a/b/.gitignore.
+func ancestorChainAccumulates(p *Prog, r *Report, rule string) {
+	fn := p.Func(fsInt, "ParseParentGitignores")
+	if fn == nil {
+		r.Undecided(rule, "anchor:ParseParentGitignores", "-", "not found")
+		return
+	}
+	n := 0
+	forEachInstr(fn, func(b *ssa.BasicBlock, _ int, in ssa.Instruction) {
+		c, ok := in.(*ssa.Call)
+		if !ok || c.Call.StaticCallee() == nil || c.Call.StaticCallee().Name() != "ParseDirForGitignore" || len(c.Call.Args) < 2 {
+			return
+		}
+		hdr := loopHeaderOf(b)
+		if hdr == nil {
+			return
+		}
+		n++
+		body := naturalLoop(hdr)
+		carried := derivesFrom(c.Call.Args[1], func(v ssa.Value) bool {
+			ph, isPhi := v.(*ssa.Phi)
+			if !isPhi || ph.Block() != hdr || !isString(ph.Type()) {
+				return false
+			}
+			// fed from inside the loop
+			for i, pr := range hdr.Preds {
+				if body[pr] && i < len(ph.Edges) {
+					if _, isC := ph.Edges[i].(*ssa.Const); !isC {
+						return true
+					}
+				}
+			}
+			return false
+		}, deriveOpts{throughCall: func(*ssa.CallCommon) bool { return true }})
+		r.Check(carried, rule, fnKey(fn)+":ancestor-path-accumulates", p.Pos(c.Pos()), "the directory read is built from a string the loop carries from component to component", "the path whose .gitignore is read for an ancestor is not built from an accumulator the loop carries (the accumulator is shadowed or reset each iteration): only the first-level ancestor's .gitignore is found, every deeper ancestor's patterns are silently lost, and a requested sub-directory extracts files the whole-tree scan ignores")
+	})
+	r.Instances(rule, "ancestor .gitignore reads", n, 1)
+}
+
+// layerEmptinessIsTheCallersFlag (round 8): FromV1Image pairs history entries with v1 layers by
+// skipping the entries flagged empty; the unpack loop later skips chain layers whose layer says
+// IsEmpty() *without consuming a tar*. The two agree only while a Layer's isEmpty is exactly the flag
+// convertV1Layer was given: a layer declared empty for another reason (its diff ID is the empty
+// tar's) is skipped without its tar being consumed, and every layer below is filled from its
+// neighbour's tar — contents and layer metadata shift against each other.
+func layerEmptinessIsTheCallersFlag(p *Prog, r *Report, rule string) {
+	fn := p.Func(imgPkg, "convertV1Layer")
+	if fn == nil || len(fn.Params) < 3 {
+		r.Undecided(rule, "anchor:convertV1Layer", "-", "not found")
+		return
+	}
+	n := 0
+	forEachInstr(fn, func(_ *ssa.BasicBlock, _ int, in ssa.Instruction) {
+		st, ok := in.(*ssa.Store)
+		if !ok {
+			return
+		}
+		if s, f, _, isF := fieldOf(st.Addr); !isF || s != "Layer" || f != "isEmpty" {
+			return
+		}
+		n++
+		r.Check(st.Val == ssa.Value(fn.Params[2]), rule, fnKey(fn)+":isEmpty", p.Pos(st.Pos()), "Layer.isEmpty is the caller's flag", "a layer's isEmpty is computed from something other than the flag the caller derived from the image history: the unpack loop skips a layer that says it is empty without consuming its tar, so a layer declared empty for another reason (the empty tar's diff ID) makes every layer below it be filled from the neighbouring tar — packages are attributed to the layer one below the one that introduced them")
+	})
+	r.Instances(rule, "stores to Layer.isEmpty in convertV1Layer", n, 1)
+}
+
+// configMapsAreReadOnly (round 8): a map-typed field of the walk context that is stored only where
+// the context is built (it comes from the configuration: the directories to skip) is shared by all
+// scan roots of a run. The walk only reads it: no map update and no delete on a map loaded from
+// such a field — an entry "consumed" by the first root that matches it is gone for the next root,
+// and the result of a multi-root scan stops being the union of the single-root scans.
+func configMapsAreReadOnly(p *Prog, r *Report, rule, relPkg, structName string) {
+	fns := p.FuncsIn(relPkg)
+	// fields stored only into a freshly allocated struct
+	atConstruction := map[string]bool{}
+	elsewhere := map[string]bool{}
+	for _, fn := range fns {
+		forEachInstr(fn, func(_ *ssa.BasicBlock, _ int, in ssa.Instruction) {
+			st, ok := in.(*ssa.Store)
+			if !ok {
+				return
+			}
+			s, f, base, ok := fieldOf(st.Addr)
+			if !ok || s != structName {
+				return
+			}
+			if _, isMap := st.Val.Type().Underlying().(*types.Map); !isMap {
+				return
+			}
+			if _, fresh := base.(*ssa.Alloc); fresh {
+				atConstruction[f] = true
+			} else {
+				elsewhere[f] = true
+			}
+		})
+	}
+	n := 0
+	fieldOfMap := func(m ssa.Value) (string, bool) {
+		ld, ok := m.(*ssa.UnOp)
+		if !ok || ld.Op != token.MUL {
+			return "", false
+		}
+		s, f, _, ok := fieldOf(ld.X)
+		if !ok || s != structName || !atConstruction[f] || elsewhere[f] {
+			return "", false
+		}
+		return f, true
+	}
+	for _, fn := range fns {
+		forEachInstr(fn, func(_ *ssa.BasicBlock, _ int, in ssa.Instruction) {
+			var m ssa.Value
+			what := ""
+			switch x := in.(type) {
+			case *ssa.MapUpdate:
+				m, what = x.Map, "an entry is written"
+			case *ssa.Call:
+				if isCallTo(x, "builtin", "", "delete") && len(x.Call.Args) == 2 {
+					m, what = x.Call.Args[0], "an entry is deleted"
+				}
+				if isCallTo(x, "builtin", "", "clear") && len(x.Call.Args) == 1 {
+					m, what = x.Call.Args[0], "the map is cleared"
+				}
+			}
+			if m == nil {
+				return
+			}
+			if f, ok := fieldOfMap(m); ok {
+				n++
+				r.Fail(rule, fmt.Sprintf("%s:%s.%s-read-only", fnKey(fn), structName, f), p.Pos(in.Pos()), fmt.Sprintf("%s.%s is built once from the configuration and shared by every scan root of the run, but %s during the walk: what the first root consumes is missing for the roots after it, so scanning several roots no longer yields the union of scanning each root alone (and the result depends on the order of the roots)", structName, f, what))
+			}
+		})
+	}
+	var fs []string
+	for f := range atConstruction {
+		if !elsewhere[f] {
+			fs = append(fs, f)
+		}
+	}
+	sort.Strings(fs)
+	if n == 0 {
+		r.OK(rule, structName+":config-maps-read-only", "-", "no update of "+strings.Join(fs, ", ")+" after construction")
+	}
+	r.Instances(rule, "map fields of "+structName+" set only at construction", len(fs), 1)
+}
+
+// everyViewGetsTheDepth (round 8): every chain layer initializeChainLayers builds carries the
+// configured hop budget on every path to a return: the literal sets maxSymlinkDepth to the
+// parameter, or every path from the allocation to a return passes the head of a loop that stores
+// the parameter into the field (a shared epilogue that an early return skips leaves the views of
+// that path with depth 0: every symlink ends in a depth error).
+func everyViewGetsTheDepth(p *Prog, r *Report, rule string) {
+	fn := p.Func(imgPkg, "initializeChainLayers")
+	if fn == nil || len(fn.Params) < 3 {
+		r.Undecided(rule, "anchor:initializeChainLayers", "-", "not found")
+		return
+	}
+	depth := fn.Params[2]
+	// epilogue stores: chainLayer.maxSymlinkDepth = depth on a value that is not a fresh literal
+	var epilogueHeads []*ssa.BasicBlock
+	forEachInstr(fn, func(b *ssa.BasicBlock, _ int, in ssa.Instruction) {
+		st, ok := in.(*ssa.Store)
+		if !ok || st.Val != ssa.Value(depth) {
+			return
+		}
+		s, f, base, ok := fieldOf(st.Addr)
+		if !ok || s != "chainLayer" || f != "maxSymlinkDepth" {
+			return
+		}
+		if _, fresh := base.(*ssa.Alloc); fresh {
+			return
+		}
+		if hdr := loopHeaderOf(b); hdr != nil {
+			epilogueHeads = append(epilogueHeads, hdr)
+		}
+	})
+	n := 0
+	forEachInstr(fn, func(_ *ssa.BasicBlock, _ int, in ssa.Instruction) {
+		al, ok := in.(*ssa.Alloc)
+		if !ok {
+			return
+		}
+		if st, nm := structOf(al.Type()); st == nil || nm == nil || nm.Obj().Name() != "chainLayer" {
+			return
+		}
+		n++
+		site := fmt.Sprintf("%s:view#%d-gets-the-depth", fnKey(fn), n)
+		set := false
+		for _, ref := range *al.Referrers() {
+			if fa, isFA := ref.(*ssa.FieldAddr); isFA {
+				if _, f, _, okF := fieldOf(fa); okF && f == "maxSymlinkDepth" {
+					for _, r2 := range *fa.Referrers() {
+						if st, isSt := r2.(*ssa.Store); isSt && st.Val == ssa.Value(depth) {
+							set = true
+						}
+					}
+				}
+			}
+		}
+		if !set && len(epilogueHeads) > 0 {
+			w := findPath(pointOf(al), func(i ssa.Instruction) bool {
+				ret, isRet := i.(*ssa.Return)
+				return isRet && len(ret.Results) > 0 && !isNilConst(ret.Results[0])
+			}, func(i ssa.Instruction) bool {
+				for _, h := range epilogueHeads {
+					if i.Block() == h && i == h.Instrs[0] {
+						return true
+					}
+				}
+				return false
+			}, nil)
+			set = w == nil
+		}
+		r.Check(set, rule, site, p.Pos(al.Pos()), "the view is given the configured MaxSymlinkDepth on every path to a return", "a chain layer is returned without the configured maximum symlink depth (it keeps 0): on images whose history does not line up with their layers every symlink in every view fails with a depth error although its chain is well within the configured number of hops")
+	})
+	r.Instances(rule, "chain layers built by initializeChainLayers", n, 1)
+}
+
+// nestedElementsReachTheNestedWriter (round 8): the pom.xml writer hands every <profile> (and
+// <plugin>) element it decodes to a nested call of itself, which applies dependency *and* property
+// patches filed under that element's origin. Between the successful decode and the next token no
+// path avoids the nested call (other than returning an error): a shortcut that copies an
+// "untouched" element through decides that by looking at some of the patch tables only, and an
+// update that lives in another table (a property defined in the profile) is reported as written
+// while the file stays as it was.
+func nestedElementsReachTheNestedWriter(p *Prog, r *Report, rule string) {
+	fn := p.Func("guidedremediation/internal/manifest/maven", "writeProject")
+	if fn == nil {
+		r.Undecided(rule, "anchor:writeProject", "-", "not found")
+		return
+	}
+	var decodes []*ssa.Call
+	forEachInstr(fn, func(_ *ssa.BasicBlock, _ int, in ssa.Instruction) {
+		if c, ok := in.(*ssa.Call); ok && !c.Call.IsInvoke() {
+			if rf := refOf(c.Common()); rf.Name == "DecodeElement" {
+				decodes = append(decodes, c)
+			}
+		}
+	})
+	n := 0
+	forEachInstr(fn, func(b *ssa.BasicBlock, _ int, in ssa.Instruction) {
+		c, ok := in.(*ssa.Call)
+		if !ok || c.Call.StaticCallee() != fn {
+			return
+		}
+		hdr := loopHeaderOf(b)
+		if hdr == nil {
+			return
+		}
+		// the decode this nested call works on: the closest dominating one
+		var dec *ssa.Call
+		for _, d := range decodes {
+			if d.Block().Dominates(b) && (dec == nil || dec.Block().Dominates(d.Block())) {
+				dec = d
+			}
+		}
+		if dec == nil {
+			return
+		}
+		n++
+		w := findPath(pointOf(dec), func(i ssa.Instruction) bool { return i.Block() == hdr && i == hdr.Instrs[0] }, func(i ssa.Instruction) bool {
+			return i == ssa.Instruction(c) || isReturn(i)
+		}, nil)
+		r.Check(w == nil, rule, fmt.Sprintf("%s:nested-element#%d", fnKey(fn), n), p.Pos(c.Pos()), "every decoded nested element is handed to the nested writer", "a decoded <profile>/<plugin> element can be written through without the nested writer seeing it: the shortcut decides 'nothing to patch here' from some of the patch tables only, so an update filed elsewhere under that element's origin (a property defined in the profile) is not applied while Write reports success; witness path (SSA blocks): "+strings.Join(w, "→"))
+	})
+	r.Instances(rule, "nested writer calls in writeProject", n, 1)
+}
+
+// copiesDependOnlyOnTheirOwnField (round 8): a field-by-field converter may make the copy of a field
+// conditional ("only if it is set"), but only on that field: between the allocation of the result
+// and the store into dst.F, every branch that decides whether the store happens and that looks at
+// the source looks at the source field the stored value comes from. A copy of Subpath placed behind
+// `len(p.Qualifiers) == 0 → return` is dropped for every value that has the one without the other.
+func copiesDependOnlyOnTheirOwnField(p *Prog, r *Report, rule, relPkg string, fnNames ...string) {
+	n := 0
+	for _, name := range fnNames {
+		fn := p.Func(relPkg, name)
+		if fn == nil || len(fn.Params) == 0 {
+			continue
+		}
+		src := fn.Params[0]
+		srcField := func(v ssa.Value) string {
+			out := ""
+			derivesFrom(v, func(x ssa.Value) bool {
+				var base ssa.Value
+				f := ""
+				switch y := x.(type) {
+				case *ssa.FieldAddr:
+					if _, ff, b, ok := fieldOf(y); ok {
+						base, f = b, ff
+					}
+				case *ssa.Field:
+					if st, _ := structOf(y.X.Type()); st != nil {
+						base, f = y.X, st.Field(y.Field).Name()
+					}
+				}
+				if base != nil && (base == ssa.Value(src) || rootedAt(base, src, 0)) && out == "" {
+					out = f
+				}
+				return false
+			}, deriveOpts{throughCall: func(*ssa.CallCommon) bool { return true }})
+			return out
+		}
+		forEachInstr(fn, func(b *ssa.BasicBlock, _ int, in ssa.Instruction) {
+			st, ok := in.(*ssa.Store)
+			if !ok {
+				return
+			}
+			_, dstF, base, ok := fieldOf(st.Addr)
+			if !ok {
+				return
+			}
+			al, isAl := base.(*ssa.Alloc)
+			if !isAl {
+				return
+			}
+			from := srcField(st.Val)
+			if from == "" {
+				return
+			}
+			n++
+			bad := ""
+			for _, dc := range dominatingConds(b) {
+				cin, isIn := dc.cond.(ssa.Instruction)
+				if !isIn || !al.Block().Dominates(cin.Block()) {
+					continue
+				}
+				if cf := srcField(dc.cond); cf != "" && cf != from {
+					bad = cf
+				}
+			}
+			r.Check(bad == "", rule, fmt.Sprintf("%s:%s-copied-on-its-own-terms", fnKey(fn), dstF), p.Pos(st.Pos()), "whether the field is copied depends on that field only", fmt.Sprintf("the copy of %s into the result depends on a test of another source field (%s): a value that has %s set but fails that test is converted without it — the record no longer carries the package URL verbatim", from, bad, from))
+		})
+	}
+	r.Instances(rule, "conditional or unconditional field copies in the converters", n, 5)
+}
+
+// decoderLoopsStopOnError (round 8): `for dec.More() { … dec.Decode(&v) … }` over an
+// encoding/json.Decoder must leave the loop when Decode fails: after a syntax error (or an
+// unexpected end of input inside a value) the decoder's error is sticky and its position does not
+// move, so More() keeps answering true — an error branch that goes on to the next iteration spins
+// for ever without reading or allocating anything (a three-byte file hangs the scan).
+func decoderLoopsStopOnError(p *Prog, r *Report, rule string, fns []*ssa.Function) {
+	n := 0
+	for _, fn := range fns {
+		for _, hb := range fn.Blocks {
+			ifi := blockIf(hb)
+			if ifi == nil {
+				continue
+			}
+			inner, _ := stripNot(ifi.Cond)
+			mc, ok := inner.(*ssa.Call)
+			if !ok || !refOf(mc.Common()).is("encoding/json", "Decoder", "More") {
+				continue
+			}
+			hdr := loopHeaderOf(hb)
+			if hdr == nil {
+				if len(hb.Preds) > 1 {
+					hdr = hb
+				} else {
+					continue
+				}
+			}
+			body := naturalLoop(hdr)
+			if !body[hb] && hb != hdr {
+				continue
+			}
+			dec := mc.Call.Args[0]
+			forEachInstr(fn, func(b *ssa.BasicBlock, _ int, in ssa.Instruction) {
+				dc, ok := in.(*ssa.Call)
+				if !ok || !body[b] || !refOf(dc.Common()).is("encoding/json", "Decoder", "Decode") || dc.Call.Args[0] != dec {
+					return
+				}
+				n++
+				failed, _ := guardEdges(fn, condNonNil(func(v ssa.Value) bool { return v == ssa.Value(dc) }))
+				bad := ""
+				for _, ed := range failed {
+					w := searchPath(Point{ed.From, len(ed.From.Instrs) - 1}, ed.Succ, func(i ssa.Instruction) bool { return i.Block() == hdr && i == hdr.Instrs[0] }, isReturn, nil)
+					if w != nil {
+						bad = strings.Join(w, "→")
+					}
+				}
+				r.Check(len(failed) > 0 && bad == "", rule, fmt.Sprintf("%s:decode-in-More-loop#%d", fnKey(fn), n), p.Pos(dc.Pos()), "a failed Decode ends the More() loop", "inside a `for dec.More()` loop a failed json Decode goes on to the next iteration: the decoder's error is sticky and More() stays true after a syntax error, so the loop never ends and Extract never returns; witness path (SSA blocks): "+bad)
+			})
+		}
+	}
+	r.Count("json Decode calls inside More() loops", n)
+}
+
+// statusGoroutineTouchesGuardedOnly (round 8): the periodic status printer runs concurrently with
+// the walk. Every field of the walk context it reads or writes is one of the fields the guarded-by
+// table puts under statusMu (whose writes elsewhere are checked to hold it): a new read of a field
+// the walker updates without the lock (dirsVisited++) is a data race even though the printer itself
+// holds statusMu throughout. Fields that no function outside the printer writes after construction
+// (configuration) are harmless and left out.
+func statusGoroutineTouchesGuardedOnly(p *Prog, r *Report, rule string) {
+	ps := p.Func("extractor/filesystem", "walkContext.printStatus")
+	if ps == nil {
+		r.Undecided(rule, "anchor:walkContext.printStatus", "-", "not found")
+		return
+	}
+	guarded := map[string]bool{}
+	for _, g := range writeGuarded {
+		if g.stype == "walkContext" {
+			guarded[g.field] = true
+		}
+	}
+	// fields written outside the printer, other than into a fresh walkContext
+	writtenByWalk := map[string]bool{}
+	for _, fn := range p.FuncsIn("extractor/filesystem") {
+		if fn == ps {
+			continue
+		}
+		forEachInstr(fn, func(_ *ssa.BasicBlock, _ int, in ssa.Instruction) {
+			st, ok := in.(*ssa.Store)
+			if !ok {
+				return
+			}
+			s, f, base, ok := fieldOf(st.Addr)
+			if !ok || s != "walkContext" {
+				return
+			}
+			if _, fresh := base.(*ssa.Alloc); fresh {
+				return
+			}
+			writtenByWalk[f] = true
+		})
+	}
+	n := 0
+	seen := map[string]bool{}
+	for _, fn := range withAnon(ps) {
+		forEachInstr(fn, func(_ *ssa.BasicBlock, _ int, in ssa.Instruction) {
+			fa, ok := in.(*ssa.FieldAddr)
+			if !ok {
+				return
+			}
+			s, f, _, ok := fieldOf(fa)
+			if !ok || s != "walkContext" || f == "statusMu" || seen[f] {
+				return
+			}
+			seen[f] = true
+			n++
+			r.Check(guarded[f] || !writtenByWalk[f], rule, "walkContext.printStatus:"+f, p.Pos(fa.Pos()), "a field the status goroutine touches is guarded by statusMu (or never written by the walk)", "the status goroutine accesses walkContext."+f+", which the walk writes without holding statusMu (it is not in the guarded-by table): the printer holds the mutex but the writer does not, so the two race")
+		})
+	}
+	r.Instances(rule, "walkContext fields touched by the status goroutine", n, 3)
+}
